@@ -1,6 +1,7 @@
 import Driver.Util
 import ClairModel.Model.Matchers
 import ClairModel.Model.MatchersLang
+import ClairModel.Model.MatchScan
 
 /-!
   Line protocol of the C03 model (see go/internal/c03):
@@ -28,6 +29,17 @@ import ClairModel.Model.MatchersLang
          one package in several records; <gates> = comma separated rhel gate bits, one per record ("-" for other matchers)
     vuln <matcher> <pkgver> <pkgarch> <fixed> <vulnpkgver> <vulnpkgarch> <archop> <re> [<gate>]
                                          -> true | false | err | hang
+    defaults                             -> the names of the registered default matchers, sorted, comma separated
+    cpesub <record cpe string> <advisory cpe string>   -> true | false      (rhel isCPESubstringMatch on the formatted strings)
+    scan <D0|D1|M:<matcher>> <#records> <#advisories> <record>… <advisory>…
+                                         -> <K|E|H> <pid:aid*n,… | ->
+         the whole `matcher.Match` over the default matcher set (D1: rhel configured with ignore_unpatched) or one
+         matcher; K = nil error, E = some controller failed, H = does not return; then how often each advisory is
+         listed for each package, sorted.
+         record   = pkgID name kind module src(0|1) srcName srcKind version arch nvKind nvInts
+                    dist(0|1) did name version codename versionid arch pretty  repo(0|1) name key uri cpeString idx
+         advisory = id pkgname kind module did name version codename versionid arch pretty reponame repokey repouri
+                    fixed pkgversion pkgarch archop  range(nil|set) lkind l.. ukind u..  cpe(0|1) cpeString supersetBits
 
   Strings are hex (`-` = empty); <re> is e (pattern does not compile), t, f.
 -/
@@ -210,9 +222,156 @@ def answer (l : String) : Option String :=
     pure (outStr (← vulnLine m p v gate))
   | _ => none
 
+/-! ### scan lines -/
+
+section Scan
+open ClairModel.MatchScan
+
+abbrev P := StateT (List String) Option
+
+def tok : P String := do
+  match (← get) with
+  | [] => failure
+  | t :: ts => set ts; pure t
+
+def pStr : P Str := do
+  match str (← tok) with
+  | some s => pure s
+  | none => failure
+
+def pFlag : P Bool := do pure ((← tok) == "1")
+
+def pNat : P Nat := do
+  match (← tok).toNat? with
+  | some n => pure n
+  | none => failure
+
+def pNVer : P NVersion := do
+  let k ← tok
+  let v ← tok
+  match parseNVersion k v with
+  | some x => pure x
+  | none => failure
+
+def pDist : P Dist := do
+  pure { did := ← pStr, name := ← pStr, version := ← pStr, versionCodeName := ← pStr,
+         versionID := ← pStr, arch := ← pStr, prettyName := ← pStr }
+
+def pRec : P Rec := do
+  let pkgID ← pStr
+  let name ← pStr
+  let kind ← pStr
+  let module ← pStr
+  let hasSrc ← pFlag
+  let sn ← pStr
+  let sk ← pStr
+  let version ← pStr
+  let arch ← pStr
+  let nver ← pNVer
+  let hasDist ← pFlag
+  let d ← pDist
+  let hasRepo ← pFlag
+  let rn ← pStr
+  let rk ← pStr
+  let ru ← pStr
+  let rc ← pStr
+  let ri ← pNat
+  pure { pkgID, name, kind, module, src := if hasSrc then some (sn, sk) else none,
+         pkg := { version, arch }, nver,
+         dist := if hasDist then some d else none,
+         repo := if hasRepo then some { name := rn, key := rk, uri := ru, cpe := rc, idx := ri } else none }
+
+def pAdv : P Adv := do
+  let id ← pStr
+  let name ← pStr
+  let kind ← pStr
+  let module ← pStr
+  let d ← pDist
+  let repoName ← pStr
+  let repoKey ← pStr
+  let repoURI ← pStr
+  let fixed ← pStr
+  let pv ← pStr
+  let pa ← pStr
+  let op ← pNat
+  let tag ← tok
+  let lo ← pNVer
+  let up ← pNVer
+  let hasCpe ← pFlag
+  let c ← pStr
+  let bits ← tok
+  pure { id, name, kind, module, dist := d, repoName, repoKey, repoURI,
+         v := { fixed, pkgVersion := pv, pkgArch := pa, archOp := op, re := none },
+         range := if tag == "nil" then none else some { lower := lo, upper := up },
+         cpe := if hasCpe then some c else none,
+         superset := if bits == "-" then [] else bits.toList.map bit }
+
+def pMany {α : Type} (p : P α) : Nat → P (List α)
+  | 0 => pure []
+  | n + 1 => do
+    let x ← p
+    let xs ← pMany p n
+    pure (x :: xs)
+
+def matcherOfName : String → Option MatcherId
+  | "alpine" => some .alpine | "aws" => some .aws | "debian" => some .debian | "gobin" => some .gobin
+  | "java" => some .java | "nodejs" => some .nodejs | "oracle" => some .oracle | "photon" => some .photon
+  | "python" => some .python | "rhcc" => some .rhcc | "ruby" => some .ruby | "suse" => some .suse
+  | "ubuntu" => some .ubuntu | "rhel0" => some (.rhel false) | "rhel1" => some (.rhel true)
+  | _ => none
+
+def matcherSet (w : String) : Option (List MatcherId) :=
+  if w == "D0" then some (defaultMatchers false)
+  else if w == "D1" then some (defaultMatchers true)
+  else if w.startsWith "M:" then (matcherOfName (w.drop 2).toString).map fun m => [m]
+  else none
+
+def insertSorted (x : String) : List String → List String
+  | [] => [x]
+  | y :: ys => if x ≤ y then x :: y :: ys else y :: insertSorted x ys
+
+def sortStrings (l : List String) : List String := l.foldr insertSorted []
+
+/-- Sorted keys with their multiplicities. -/
+def countRuns : List String → List (String × Nat)
+  | [] => []
+  | x :: xs =>
+    match countRuns xs with
+    | (y, n) :: rest => if x == y then (y, n + 1) :: rest else (x, 1) :: (y, n) :: rest
+    | [] => [(x, 1)]
+
+/-- The architecture pattern of a scan line must be one the model computes itself. -/
+def advComputable (a : Adv) : Bool :=
+  a.v.archOp != 3 || a.v.pkgArch.isEmpty || reComputed a.v.pkgArch
+
+def scanLine (ws : List String) : Option String := do
+  match ws with
+  | setW :: nr :: na :: rest =>
+    let ms ← matcherSet setW
+    let p : P (List Rec × List Adv) := do
+      let rs ← pMany pRec (← nr.toNat?)
+      let as ← pMany pAdv (← na.toNat?)
+      pure (rs, as)
+    let ((recs, advs), left) ← p.run rest
+    if !left.isEmpty then none
+    else if !(advs.all advComputable) then some "uncomputed-pattern"
+    else
+      let keys := (scanPairs ms recs advs).map fun (pid, aid) => hexOf pid ++ ":" ++ hexOf aid
+      let runs := countRuns (sortStrings keys)
+      let body := if runs.isEmpty then "-" else ",".intercalate (runs.map fun (k, n) => s!"{k}*{n}")
+      let flag := if scanHang ms recs advs then "H" else if scanErr ms recs advs then "E" else "K"
+      some s!"{flag} {body}"
+  | _ => none
+
+end Scan
+
 def stepLine (s : Unit) (l : String) : Unit × String :=
   if l == "reset" then (s, "ok") else
-  match answer l with
+  match (match Driver.words l with
+      | "scan" :: ws => scanLine ws
+      | ["defaults"] => some (",".intercalate (sortStrings ((ClairModel.MatchScan.defaultMatchers false).map ClairModel.MatchScan.name)))
+      | ["cpesub", a, b] => do pure (toString (ClairModel.MatchScan.cpeSubstring (← str a) (← str b)))
+      | _ => answer l) with
   | some o => (s, o)
   | none => (s, "bad-op")
 
